@@ -1,13 +1,19 @@
 """C14 — the heat-kernel distance is a real pseudo-metric, stable w.r.t. Wasserstein.
 
 Theorems: lean/PersimVerif/Props/C14.lean (model lean/PersimVerif/Model/Heat.lean at the reals with Real.exp).
-Tie: `persim.heat.evalHeatKernel` / `heat` vs the same model executed at Float (driver op `heat`): the three kernel
-     values, the radicand k(F,F)+k(G,G)-2k(F,G) and the clamped root.
-[T]: the laws of the statement evaluated directly on the real code (rounding is outside every theorem) — finite, >= 0,
-     never NaN (the pre-fix failure on reordered equal diagrams), zero for reorderings, symmetry, diagonal points,
-     diagonal translation, triangle inequality and `<= W1/(4 sigma sqrt(pi))` (reference: persim's wasserstein, see `w1`);
-     a representation stream (integer dtypes of every width, nested lists, tuples, an extra column) with the
-     finite / never-NaN / definition checks on the same numbers (the pre-fix wrap-around on unsigned diagrams).
+Tie: `heat` (and, as long as it exists with this signature, the private helper `persim.heat.evalHeatKernel`) vs the same model
+     executed at Float (driver op `heat`): the clamped root, and the three kernel values / the radicand
+     k(F,F)+k(G,G)-2k(F,G) of the helper.  The helper is correspondence-only: a renamed helper, or a normalisation moved from
+     the helper into `heat`, is reported as `no-failing-input-found`.
+[T]: the laws of the statement evaluated on the real code through `heat(...)` alone (rounding is outside every theorem), with
+     tolerances relative to the kernel values of the independently written DEFINITION — finite, >= 0, never NaN (the pre-fix
+     failure on reordered equal diagrams), `heat**2` = the definition's radicand, zero for reorderings, symmetry, diagonal
+     points, diagonal translation, triangle inequality and `<= W1/(4 sigma sqrt(pi))` (reference: persim's wasserstein, see
+     `w1`); a larger-size class (60-120 points, thorough 60-200; the definition as a numpy double sum over coordinate
+     differences); a representation stream (integer dtypes of every width, nested lists, tuples) with the finite / never-NaN /
+     definition checks on the same numbers (the pre-fix wrap-around on unsigned diagrams), equality with the float64 call to
+     the radicand's rounding tolerance (bit-level equality is a correspondence signal); arrays with a third column are outside
+     "finite diagrams" and are correspondence-only.
 """
 import math
 import numpy as np
@@ -23,13 +29,16 @@ RULE = ("pairs/triples of diagrams from one PRNG: sizes 0-8 (thorough 0-14), coo
         "(relative perturbation 1e-3..1e-15) / one or both empty; sigma = 10^U(-3,3), with prob 0.7 multiplied by the squared "
         "coordinate scale so that the kernel is neither all-zero nor flat; non-trivial = both diagrams have an off-diagonal "
         "point and k(F,G) is above the rounding floor; distinct by digest of (F, G, sigma); a representation stream stores "
-        "small-integer diagrams as uint8/int8/uint16/int32/int64/float32 arrays, nested lists, tuples of tuples and arrays "
-        "with a third column and compares with the float64 call and the definition")
+        "small-integer diagrams as uint8/int8/uint16/int32/int64/float32 arrays, nested lists, tuples of tuples (and, correspondence "
+        "only, arrays with a third column) and compares with the float64 call and the definition; a larger-size class of 8 (thorough "
+        "40) pairs of 60-120 (60-200) points, kinds random / reordered-equal / nearly-equal / large offset with small spread")
 ASSUMPTIONS = [
     "inputs are finite (n,2) arrays or empty lists and sigma > 0 is a finite float (the code has no guard on sigma; the property quantifies over sigma > 0)",
     "np.exp/np.sqrt agree with the model's Float.exp/Float.sqrt up to rounding: kernel values compared to 1e-9 relative plus a "
     "rounding floor of 1e-14 per summand of the double loop (each summand is a difference of two numbers in [0,1])",
     "theorems are exact-arithmetic over the reals; rounding (what made the pre-fix radicand negative) is covered only by the [T] streams",
+    "the verdict of every law is taken from heat(...) and the independently written definition only; persim.heat.evalHeatKernel (private) "
+    "is compared with the model as a correspondence signal and may be renamed / re-normalised without a claimed failing input",
 ]
 RTOL = 1e-9
 FLOOR = 1e-14      # absolute rounding floor per summand exp(..)-exp(..) of the double loop
@@ -53,24 +62,51 @@ def arr(d):
 
 
 def code_k(F, G, sigma):
+    """the PRIVATE helper `evalHeatKernel` in the harness's own call convention: correspondence only (compared with the model's
+       kernel values).  None if the helper is gone, takes other arguments or does not return a number — the verdict never
+       depends on it (see `eval_case`: `heat(...)**2` against the definition)"""
+    f = getattr(H(), "evalHeatKernel", None)
+    if f is None:
+        return None
     with np.errstate(all="ignore"):
-        return float(H().evalHeatKernel(arr(F), arr(G), sigma))
+        try:
+            return float(f(arr(F), arr(G), sigma))
+        except Exception:
+            return None
 
 
 def code_heat(F, G, sigma):
     with np.errstate(all="ignore"):
         st, v, _ = call(H().heat, arr(F), arr(G), sigma)
-    return ("err:" + v) if st == "err" else float(v)
+    if st == "err":
+        return "err:" + v
+    try:
+        return float(v)
+    except (TypeError, ValueError):
+        return "err:not-a-number(%s)" % type(v).__name__
 
 
 def spec_k(F, G, sigma):
-    """the multi-scale kernel of Reininghaus et al., written independently (math.exp / fsum)"""
+    """the multi-scale kernel of Reininghaus et al., written independently: math.exp / fsum for small diagrams, the same
+       double sum over numpy arrays of coordinate DIFFERENCES (fsum of the summands) above 400 pairs"""
+    if len(F) * len(G) > 400:
+        A, B = arr(F), arr(G)
+        d00 = A[:, None, 0] - B[None, :, 0]; d11 = A[:, None, 1] - B[None, :, 1]
+        d01 = A[:, None, 0] - B[None, :, 1]; d10 = A[:, None, 1] - B[None, :, 0]
+        with np.errstate(all="ignore"):
+            t = np.exp(-(d00 * d00 + d11 * d11) / (8 * sigma)) - np.exp(-(d01 * d01 + d10 * d10) / (8 * sigma))
+        return math.fsum(t.ravel().tolist()) / (8 * math.pi * sigma)
     t = []
     for (a, b) in F:
         for (c, d) in G:
             t.append(math.exp(-((a - c) ** 2 + (b - d) ** 2) / (8 * sigma)))
             t.append(-math.exp(-((a - d) ** 2 + (b - c) ** 2) / (8 * sigma)))
     return math.fsum(t) / (8 * math.pi * sigma)
+
+
+def spec_ks(F, G, sigma):
+    """[k(F,F), k(G,G), k(F,G)] of the definition: what every tolerance is relative to"""
+    return [spec_k(F, F, sigma), spec_k(G, G, sigma), spec_k(F, G, sigma)]
 
 
 def spec_d2(F, G, sigma):
@@ -181,41 +217,45 @@ def gen_pair(ctx, nmax):
 # ----------------------------------------------------------------------------- the property on the real code
 
 def kvals(F, G, sigma):
-    return [code_k(F, F, sigma), code_k(G, G, sigma), code_k(F, G, sigma)]
+    """the private helper's three kernel values, or None (correspondence only)"""
+    v = [code_k(F, F, sigma), code_k(G, G, sigma), code_k(F, G, sigma)]
+    return None if any(x is None for x in v) else v
 
 
-def eval_case(c):
-    """evaluate one recorded check on the real code; returns (ok, info)"""
+def eval_case(c, hf=None):
+    """evaluate one recorded check on the real code THROUGH `heat` ONLY; returns (ok, info).  Tolerances are relative to the
+       kernel values of the definition (`spec_ks`), never to what a private helper returns.  `hf` = a memoising stand-in for
+       `code_heat` (the large-size stream evaluates several laws on the same pair)"""
+    hf = hf or code_heat
     k = c["kind"]
     F, G, sigma = c["F"], c["G"], c["sigma"]
-    h = code_heat(F, G, sigma)
+    h = hf(F, G, sigma)
     if k == "finite":
         return (not isinstance(h, str)) and math.isfinite(h) and h >= 0.0, {"heat": h}
     if isinstance(h, str) or not math.isfinite(h):
         return False, {"heat": h}
-    ks = kvals(F, G, sigma)
+    if k == "representation":
+        return rep_eval(F, G, sigma, c["repF"], c["repG"])
+    ks = spec_ks(F, G, sigma)
     tau = d2_tol(F, G, sigma, ks)
     if k == "spec":
         # the value is the clamped root of k(F,F)+k(G,G)-2k(F,G) for the multi-scale kernel (compared as squares)
-        sk = [spec_k(F, F, sigma), spec_k(G, G, sigma), spec_k(F, G, sigma)]
-        okk = all(abs(a - b) <= RTOL * abs(b) + floor_k(n1, n2, sigma) + 1e-300
-                  for a, b, (n1, n2) in zip(ks, sk, [(len(F), len(F)), (len(G), len(G)), (len(F), len(G))]))
-        d2 = sk[0] + sk[1] - 2 * sk[2]
-        okh = abs(h * h - max(d2, 0.0)) <= d2_tol(F, G, sigma, sk)
-        return okk and okh, {"code k(F,F),k(G,G),k(F,G)": ks, "definition": sk, "heat^2": h * h, "definition dist^2": d2, "tol": tau}
+        d2 = ks[0] + ks[1] - 2 * ks[2]
+        okh = abs(h * h - max(d2, 0.0)) <= tau
+        return okh, {"heat^2": h * h, "definition dist^2": d2, "definition k(F,F),k(G,G),k(F,G)": ks, "tol": tau}
     if k == "perm":
         # a diagram and any reordering of itself: distance (numerically) zero
         Fp = c["Fp"]
-        z = code_heat(F, Fp, sigma)
+        z = hf(F, Fp, sigma)
         kff = abs(ks[0])
         tol = math.sqrt(d2_tol(F, F, sigma, [kff, kff, kff], rtol=1e-12))
         return (not isinstance(z, str)) and math.isfinite(z) and 0.0 <= z <= tol, {"heat(F, perm F)": z, "tol": tol, "k(F,F)": ks[0]}
     if k == "symm":
-        w = code_heat(G, F, sigma)
+        w = hf(G, F, sigma)
         return (not isinstance(w, str)) and math.isfinite(w) and abs(h * h - w * w) <= tau, {"heat(F,G)": h, "heat(G,F)": w, "tol(dist^2)": tau}
     if k == "diag":
         F2, G2 = c["F2"], c["G2"]
-        w = code_heat(F2, G2, sigma)
+        w = hf(F2, G2, sigma)
         tau2 = d2_tol(F2, G2, sigma, ks)
         return (not isinstance(w, str)) and math.isfinite(w) and abs(h * h - w * w) <= tau2, {"heat": h, "with diagonal points": w, "tol(dist^2)": tau2}
     if k == "translate":
@@ -228,22 +268,20 @@ def eval_case(c):
         per = 8 * 0.31 * delta / math.sqrt(sigma)
         n1, n2 = len(F), len(G)
         tau2 = tau + per * (n1 * n1 + n2 * n2 + 2 * n1 * n2) / (8 * math.pi * sigma)
-        w = code_heat(F2, G2, sigma)
+        w = hf(F2, G2, sigma)
         return (not isinstance(w, str)) and math.isfinite(w) and abs(h * h - w * w) <= tau2, {"heat": h, "translated": w, "tol(dist^2)": tau2}
     if k == "triangle":
         C = c["C"]
-        x, y = code_heat(F, C, sigma), code_heat(C, G, sigma)
+        x, y = hf(F, C, sigma), hf(C, G, sigma)
         if isinstance(x, str) or isinstance(y, str) or not (math.isfinite(x) and math.isfinite(y)):
             return False, {"heat(F,C)": x, "heat(C,G)": y}
-        slack = root_err(tau, h) + root_err(d2_tol(F, C, sigma, kvals(F, C, sigma)), x) + root_err(d2_tol(C, G, sigma, kvals(C, G, sigma)), y)
+        slack = root_err(tau, h) + root_err(d2_tol(F, C, sigma, spec_ks(F, C, sigma)), x) + root_err(d2_tol(C, G, sigma, spec_ks(C, G, sigma)), y)
         return h <= x + y + slack, {"heat(F,G)": h, "heat(F,C)": x, "heat(C,G)": y, "slack": slack}
     if k == "w1":
         w, which = w1(F, G)
         bound = w / (4 * sigma * math.sqrt(math.pi))
         slack = root_err(d2_tol(F, G, sigma, ks, rtol=1e-12), h) + 1e-9 * bound
         return h <= bound + slack, {"heat": h, "W1/(4 sigma sqrt pi)": bound, "W1": w, "W1 reference": which, "slack": slack}
-    if k == "representation":
-        return rep_eval(F, G, sigma, c["repF"], c["repG"])
     raise common.HarnessError("unknown case kind %r" % k)
 
 
@@ -276,6 +314,22 @@ def fail(ctx, what, case, info, **more):
     ctx.violation("%s: %s" % (what, info), case, found_input=True, **more)
 
 
+def n_found(ctx):
+    """violations that carry a failing input; correspondence-only reports do not stop the search"""
+    return sum(1 for _, f in ctx.violations if f)
+
+
+_CORR = {}
+
+
+def corr_limited(ctx, key, what, case, limit=1):
+    """correspondence-only report (`no-failing-input-found`), at most `limit` per kind; further ones are counted"""
+    _CORR[key] = _CORR.get(key, 0) + 1
+    ctx.count("correspondence_only:" + key)
+    if _CORR[key] <= limit:
+        ctx.violation(what, case, found_input=False, correspondence=key)
+
+
 def search_failing_input(ctx, F, G, sigma, line, code, model):
     spec_case = {"kind": "spec", "F": F, "G": G, "sigma": sigma}
     todo = [dict(spec_case, kind="finite"), spec_case] + laws_for(ctx, F, G, ctx.gen.diagram(6), sigma)[1:]
@@ -287,9 +341,8 @@ def search_failing_input(ctx, F, G, sigma, line, code, model):
                         lc["kind"], "heat-kernel law `%s` fails on the real code" % lc["kind"])
             fail(ctx, what, lc, info, correspondence="heat", model=model)
             return True
-    ctx.violation("code and model of heat differ but the definition and all laws hold on this input: code=%r model=%r" % (code, model),
-                  {"correspondence": "heat", "line": line[:2000], "code": code, "model": model, "F": F, "G": G, "sigma": sigma},
-                  found_input=False)
+    corr_limited(ctx, "heat", "code and model of heat differ but the definition and all laws hold on this input: code=%r model=%r" % (code, model),
+                 {"correspondence": "heat", "line": line[:2000], "code": code, "model": model, "F": F, "G": G, "sigma": sigma}, limit=3)
     return False
 
 
@@ -332,41 +385,51 @@ def run(ctx):
                 h = code_heat(F, G, sigma)
         else:
             h = code_heat(F, G, sigma)
-        ks = kvals(F, G, sigma)
+        ks = kvals(F, G, sigma)                       # private helper: None if it cannot be called as before
         if isinstance(ans, str) or len(ans) != 6:
             raise common.HarnessError("driver answered %r to %s" % (ans, line[:200]))
         mk = [float(x) for x in ans[:3]]
         md2, mh = float(ans[3]), float(ans[4])
         n1, n2 = len(F), len(G)
         offd = lambda D: any(p[0] != p[1] for p in D)
-        nontriv = offd(F) and offd(G) and abs(ks[2]) > 100 * floor_k(n1, n2, sigma)
+        nontriv = offd(F) and offd(G) and abs(mk[2]) > 100 * floor_k(n1, n2, sigma)
         ctx.case({"op": "heat", "F": F, "G": G, "sigma": sigma}, nontriv, sample_every=173)
         ctx.count("kind:" + kind)
         ctx.count("sigma:1e%+d" % (3 * math.floor(math.log10(sigma) / 3)) if 1e-9 < sigma < 1e15 else "sigma:extreme")
         ctx.count("sizes:%s" % ("0" if not F and not G else "one-empty" if not F or not G else "<=4" if n1 + n2 <= 4 else "<=10" if n1 + n2 <= 10 else ">10"))
-        agree = not isinstance(h, str) and all(math.isfinite(x) for x in ks + [h])
-        if agree:
+        if ks is None:
+            corr_limited(ctx, "helper:evalHeatKernel", "persim.heat.evalHeatKernel cannot be called as evalHeatKernel(dgm1, dgm2, sigma) any "
+                         "more (private helper); only heat() itself is compared with the model from here on",
+                         {"correspondence": "helper:evalHeatKernel"})
+        # heat() itself against the model: tolerance relative to the MODEL's kernel values (all finite for these inputs)
+        tau = d2_tol(F, G, sigma, mk)
+        agree = not isinstance(h, str) and math.isfinite(h) and all(math.isfinite(x) for x in mk + [md2, mh])
+        agree = agree and abs(h * h - max(md2, 0.0)) <= tau and abs(h * h - mh * mh) <= tau
+        if agree and ks is not None:
             sizes = [(n1, n1), (n2, n2), (n1, n2)]
-            agree = all(abs(a - b) <= RTOL * max(abs(a), abs(b)) + floor_k(p, q, sigma) + 1e-300 for a, b, (p, q) in zip(ks, mk, sizes))
-            tau = d2_tol(F, G, sigma, ks)
+            agree = all(math.isfinite(x) for x in ks) and \
+                all(abs(a - b) <= RTOL * max(abs(a), abs(b)) + floor_k(p, q, sigma) + 1e-300 for a, b, (p, q) in zip(ks, mk, sizes))
             cd2 = ks[0] + ks[1] - 2 * ks[2]
-            agree = agree and abs(cd2 - md2) <= tau and abs(h * h - max(md2, 0.0)) <= tau and abs(h * h - mh * mh) <= tau
-            if md2 < 0:
-                ctx.count("radicand_negative_before_clamp")
+            agree = agree and abs(cd2 - md2) <= tau
             sc = abs(ks[0]) + abs(ks[1]) + 2 * abs(ks[2])
-            if sc > 0:
+            if agree and sc > 0:
                 worst = max(worst, abs(cd2 - md2) / sc)
+        if md2 < 0:
+            ctx.count("radicand_negative_before_clamp")
         if not agree:
             search_failing_input(ctx, F, G, sigma, line, {"k": ks, "heat": h}, {"k": mk, "dist2": md2, "heat": mh})
-            if len(ctx.violations) > 5:
+            if n_found(ctx) > 5:
                 return
     ctx.extra["max_code_model_discrepancy_dist2_rel"] = worst
     ctx.extra["branch_hits"] = cov.summary()
     ctx.extra["core_theorems"] = CORE_THEOREMS
     representations(ctx)
-    if len(ctx.violations) > 5:
+    if n_found(ctx) > 5:
         return
     laws(ctx, nmax)
+    if n_found(ctx) > 5:
+        return
+    large(ctx)
 
 
 def laws(ctx, nmax):
@@ -387,9 +450,55 @@ def laws(ctx, nmax):
             ctx.test(lc["kind"] if lc["kind"] != "spec" else "definition", ok)
             if not ok:
                 fail(ctx, "heat-kernel law `%s` fails on the real code" % lc["kind"], lc, info, law=True)
-                if len(ctx.violations) > 5:
+                if n_found(ctx) > 5:
                     return
     ctx.extra["w1_reference"] = dict(STATS)
+
+
+def large(ctx):
+    """[T] diagrams of 60-120 points (thorough 60-200): blocked / vectorised rewrites of the double loop behave differently
+       only beyond small sizes.  finite, the definition (numpy double sum over coordinate differences, fsum), zero between
+       reorderings, symmetry — each pair's heat values are computed once and shared by the laws"""
+    r, g = ctx.rng, ctx.gen
+    lo, hi = (60, 200) if ctx.thorough else (60, 120)
+    for i in range(ctx.n(8, 40)):
+        kind = ["random", "perm", "near", "offset"][i % 4]
+        mode = r.choice(["lattice", "half", "dec", "unif", "dyadic"]) if kind != "offset" else "dec"
+        n1 = r.randint(lo, hi)
+        F = [g.bar(mode, allow_diag=True) for _ in range(n1)]
+        if kind == "offset":                               # large offset, small spread (expanded |p|^2+|q|^2-2<p,q> cancels here)
+            off = r.choice([1e4, 1e5, 1e6, 1e7])
+            F = [[p[0] + off, p[1] + off] for p in F]
+        if kind == "perm":
+            G = [list(p) for p in F]; r.shuffle(G)
+        elif kind in ("near", "offset"):
+            eta = r.choice([1e-3, 1e-6, 1e-9, 1e-12])
+            G = [sorted([p[0] * (1 + eta * r.uniform(-1, 1)), p[1] * (1 + eta * r.uniform(-1, 1))]) for p in F]
+            r.shuffle(G)
+            G = G[:r.randint(lo, len(G))] if len(G) > lo else G
+        else:
+            G = [g.bar(mode, allow_diag=True) for _ in range(r.randint(lo, hi))]
+        sigma = gen_sigma(ctx, [F, G]) if kind != "offset" else 10.0 ** r.uniform(-1, 2)
+        memo = {}
+
+        def hf(A, B, s_):
+            key = (id(A), id(B))
+            if key not in memo:
+                memo[key] = code_heat(A, B, s_)
+            return memo[key]
+        Fp = [list(p) for p in F]; r.shuffle(Fp)
+        base = {"F": F, "G": G, "sigma": sigma}
+        ctx.case({"op": "large", "n": [len(F), len(G)], "kind": kind, "sigma": sigma, "F0": F[:2]}, True)
+        ctx.count("large:" + kind)
+        for lc in (dict(base, kind="finite"), dict(base, kind="spec"), dict(base, kind="perm", Fp=Fp), dict(base, kind="symm")):
+            ok, info = eval_case(lc, hf)
+            ctx.test("large_" + (lc["kind"] if lc["kind"] != "spec" else "definition"), ok)
+            if not ok:
+                fail(ctx, "heat-kernel law `%s` fails on the real code for diagrams of %d and %d points" % (lc["kind"], len(F), len(G)),
+                     lc, info, law=True)
+                if n_found(ctx) > 5:
+                    return
+                break
 
 
 REPS = ["uint8", "int8", "uint16", "int32", "int64", "float32", "lists", "tuples", "extra_column"]
@@ -406,26 +515,36 @@ def as_rep(D, rep):
 
 
 def rep_eval(F, G, sigma, repF, repG):
-    """heat on a stored representation of small-integer diagrams: finite, never NaN, equal to the float64 call (the
-    conversion is exact) and to the definition on the same numbers"""
+    """heat on a stored representation of small-integer diagrams: finite, never NaN, the definition's value on the same numbers
+       and the value of the float64 call (the conversion is exact) — both to the rounding tolerance of the radicand.  Bit-for-bit
+       equality with the float64 call is reported in info["bitwise"] (correspondence only)."""
     with np.errstate(all="ignore"):
         st, v, _ = call(H().heat, as_rep(F, repF), as_rep(G, repG), sigma)
-    h = ("err:" + v) if st == "err" else float(v)
+    try:
+        h = ("err:" + v) if st == "err" else float(v)
+    except (TypeError, ValueError):
+        h = "err:not-a-number"
     Ff = [[float(p[0]), float(p[1])] for p in F]
     Gf = [[float(p[0]), float(p[1])] for p in G]
     ref = code_heat(Ff, Gf, sigma)
     info = {"heat(representation)": h, "heat(float64 arrays)": ref}
     if isinstance(h, str) or not math.isfinite(h) or h < 0:
         return False, info
-    sk = [spec_k(Ff, Ff, sigma), spec_k(Gf, Gf, sigma), spec_k(Ff, Gf, sigma)]
+    sk = spec_ks(Ff, Gf, sigma)
     d2 = sk[0] + sk[1] - 2 * sk[2]
+    tau = d2_tol(Ff, Gf, sigma, sk)
     info["definition dist^2"] = d2
-    okd = abs(h * h - max(d2, 0.0)) <= d2_tol(Ff, Gf, sigma, sk)
-    return okd and h == ref, info
+    okd = abs(h * h - max(d2, 0.0)) <= tau
+    same = (not isinstance(ref, str)) and math.isfinite(ref) and abs(h * h - ref * ref) <= tau
+    info["bitwise"] = (h == ref)
+    return okd and same, info
 
 
 def representations(ctx):
-    """[T] fix 433e88f (`np.array(dgm, dtype=float)`): the value must not depend on how the numbers are stored"""
+    """[T] fix 433e88f (`np.array(dgm, dtype=float)`): the value must not depend on how the numbers are stored.  Arrays with a
+       third column are NOT diagrams in the statement's sense ("finite diagrams": (n,2)); the present code ignores further
+       columns, so they are run too, but a different behaviour there (e.g. a shape validation that raises) is a correspondence
+       break, not a failing input"""
     r = ctx.rng
     for i in range(ctx.n(270, 2700)):
         repF = REPS[i % len(REPS)]
@@ -447,19 +566,31 @@ def representations(ctx):
             F, G = G, F
         sigma = r.choice([0.4, 1.0, 5.0, 50.0, 400.0])
         ok, info = rep_eval(F, G, sigma, repF, repG)
+        case = {"kind": "representation", "F": F, "G": G, "sigma": sigma, "repF": repF, "repG": repG}
+        outside = "extra_column" in (repF, repG)
         ctx.case({"op": "representation", "F": F, "G": G, "sigma": sigma, "repF": repF, "repG": repG}, bool(F) and bool(G), sample_every=61)
         ctx.count("representation:" + repF)
+        if outside:
+            ctx.count("representation_outside_the_quantifier_(third_column)")
+            if not ok:
+                corr_limited(ctx, "extra_column", "heat on an array with a third column no longer gives the value of its first two columns "
+                             "(%s); such arrays are outside the statement's 'finite diagrams' — correspondence only" % (info,),
+                             dict(case, correspondence="extra_column"))
+            continue
         ctx.test("representation", ok)
         if not ok:
             fail(ctx, "heat depends on the stored representation (%s, %s) of the same numbers / is not the definition's value" % (repF, repG),
-                 {"kind": "representation", "F": F, "G": G, "sigma": sigma, "repF": repF, "repG": repG}, info, law=True)
-            if len(ctx.violations) > 5:
+                 case, info, law=True)
+            if n_found(ctx) > 5:
                 return
+        elif not info.get("bitwise", True):
+            corr_limited(ctx, "representation_bits", "heat on the (%s, %s) representation agrees with the float64 call to rounding but not bit "
+                         "for bit (%s) — correspondence only" % (repF, repG, info), dict(case, correspondence="representation_bits"))
 
 
 def replay(ctx, rep):
     c = rep["case"]
-    if "kind" not in c:
+    if "kind" not in c or "correspondence" in c:
         print("correspondence-only replay (no failing input was found): code=%s model=%s" % (c.get("code"), c.get("model")))
         if "F" in c:
             ok, info = eval_case({"kind": "spec", "F": c["F"], "G": c["G"], "sigma": c["sigma"]})
@@ -485,11 +616,12 @@ MANIFEST = {
             "`heat_nonneg_finite` / `heat_radicand_nonneg` / `heat_real_nonneg` hold BY CONSTRUCTION over the reals (max(.,0) under "
             "the root; every real is finite) and say nothing about floating point: 'finite' and 'never NaN' are statements about "
             "floats and are [T] only - the streams on reordered-equal and nearly-equal diagrams and on integer/list/tuple "
-            "representations of the same numbers (uint8/int8/uint16/int32/int64/float32, an extra column), where the pre-fix code "
+            "representations of the same numbers (uint8/int8/uint16/int32/int64/float32), where the pre-fix code "
             "returned NaN. A kernel-evaluated IEEE-double witness shows the old radicand negative for a reordered diagram. "
             "The model is tied to the code on every run by executing it at Float "
-            "against evalHeatKernel/heat (kernel values and radicand to 1e-9 plus a rounding floor), against an independent "
-            "definition, and all laws are evaluated on the real code as tests.",
+            "against heat and the private helper evalHeatKernel (kernel values and radicand to 1e-9 plus a rounding floor; the helper is a "
+            "correspondence signal only), and all laws including `heat**2 = the definition's radicand` are evaluated on the real code "
+            "through heat() alone as tests, up to 200-point diagrams.",
     "note": "Trusted: Lean kernel + Mathlib, axioms propext/Classical.choice/Quot.sound; the correspondence harness; np.exp/np.sqrt "
             "as Real.exp/sqrt up to rounding; persim.wasserstein (difference-based since /repo 6c9bac1; confirmed against an "
             "independent difference-based W1 up to the 4.5e-16*sum|coordinates| rounding of its rotation, which replaces it where "
